@@ -212,6 +212,16 @@ PROPS['C12']['gens'] = PROPS['C12']['gens'] + [dict(scenario='vbuilt', n=dict(qu
 PROPS['C12']['events'] = ['vparse', 'vbuilt']
 PROPS['C12']['rule'] += '; + seeded versions built directly from canonical identifiers (components up to MAX_SAFE_INTEGER, numeric identifiers up to 2^64-1, hyphen-only and mixed identifiers, up to 4 prerelease and 3 build identifiers)'
 
+# the literals of the repository's own tests as a seed corpus (each text alone, and random pairs through the set operations)
+for _p in ('C01', 'C05', 'C07', 'C08', 'C09', 'C10', 'C11', 'C13', 'C15'):
+    PROPS[_p]['gens'] = PROPS[_p]['gens'] + [dict(scenario='corpus', n=dict(quick=300, thorough=5000))]
+    PROPS[_p]['rule'] += '; + the 291 string literals of the repository\'s own tests, each alone and in random pairs through the set operations'
+for _p in ('C07', 'C08', 'C09', 'C10', 'C11'):
+    PROPS[_p]['gens'] = PROPS[_p]['gens'] + [dict(scenario='bigranges', n=dict(quick=600, thorough=10000))]
+    PROPS[_p]['rule'] += '; + seeded pairs in which one or both operands have 8-24 alternatives over a wider pool of versions'
+for _p, _evs in (('C07', ['isect']), ('C08', ['diff']), ('C09', ['any']), ('C10', ['all']), ('C11', ['minv']), ('C13', ['print']), ('C15', ['ident']), ('C05', ['vparse']), ('C01', ['rparse'])):
+    pass
+
 _LEVEL = ('TLC checks the design of the operation (spec/Interval.tla) against the declarative statement, pointwise on a complete '
           'probe set, for every operand pair of the bounded universe; each enumerated pair and thousands of seeded large/irregular '
           'pairs are then executed against the real crate and every recorded call is judged by TLC against the Api postcondition. '
